@@ -9,7 +9,7 @@
    Verdict lines follow the brief:  VIOLATION property=<id> replay=<path> [no-failing-input-found]
                                     KNOWN-FINDING: property=<id> <what>
 """
-import os, sys, re, json, time, glob, hashlib, subprocess, random, fcntl, importlib.util, shutil, signal
+import os, sys, re, json, time, glob, hashlib, subprocess, random, fcntl, importlib.util, shutil, signal, threading
 from concurrent.futures import ThreadPoolExecutor
 
 ROOT = os.path.dirname(os.path.dirname(os.path.abspath(__file__)))
@@ -306,7 +306,7 @@ def compile_tu(src, flags, variant):
     obj = os.path.join(objdir, key + ".o")
     if os.path.exists(obj):
         return obj, ""
-    tmp = obj + ".tmp%d" % os.getpid()
+    tmp = obj + ".tmp%d.%d" % (os.getpid(), threading.get_ident())
     p = subprocess.run(["timeout", "900", CXX] + flags + ["-c", src, "-o", tmp], stdout=subprocess.PIPE, stderr=subprocess.STDOUT, text=True)
     if p.returncode != 0:
         return None, "compile failed: %s\n%s" % (src, p.stdout[-6000:])
@@ -335,8 +335,10 @@ def harness_build(pid, prop, variant="plain"):
     os.makedirs(outdir, exist_ok=True)
     exe = os.path.join(outdir, "h_%s_%s" % (variant, key))
     if not os.path.exists(exe):
+        # keep other executables (a concurrent check against another tree may be using them); drop stale ones
         for old in glob.glob(os.path.join(outdir, "h_%s_*" % variant)):
-            try: os.remove(old)
+            try:
+                if time.time() - os.path.getmtime(old) > 6 * 3600: os.remove(old)
             except OSError: pass
         tmp = exe + ".tmp%d" % os.getpid()
         cmd = [CXX] + (ASANFLAGS if variant == "asan" else []) + objs + link + ["-o", tmp]
@@ -716,4 +718,16 @@ def setup():
         okh, _, e2 = harness_build(pid, prop, "plain")
         if not okm: log(pid, e1); rc = rc or 1
         if not okh: log(pid, e2); rc = rc or 1
+        # warm the sanitizer variants the quick tier uses (own ASAN_QUICK, and C10's sweep over every property)
+        if getattr(prop, "ASAN_QUICK", False) or "C10" in claimed:
+            oka, _, e3 = harness_build(pid, prop, "asan")
+            if not oka: log(pid, "asan variant:", e3[-400:])
+    for pid in claimed:
+        prop = load_prop(pid)
+        if hasattr(prop, "setup_extra"):
+            try:
+                prop.setup_extra(dict(tier="quick", seed=1, compile_tu=compile_tu, CXXFLAGS=CXXFLAGS, REPO=REPO, ROOT=ROOT,
+                                      BUILD=BUILD, NCPU=NCPU, evaluations=0, nontrivial=0, tags={}))
+            except Exception as ex:
+                log(pid, "setup_extra failed:", repr(ex)[:300])
     return rc
